@@ -60,6 +60,92 @@ json.dump(out, open(sys.argv[2], "w"))
 '''
 
 
+MACHINE = r'''
+import json, sys, operator
+from lsprotocol import types as t
+OPS = {"lt": operator.lt, "le": operator.le, "gt": operator.gt, "ge": operator.ge, "eq": operator.eq, "ne": operator.ne}
+def run(op, a, b):
+    try:
+        r = OPS[op](a, b)
+    except Exception as e:
+        return "Other:" + type(e).__name__
+    return "T" if r is True else "F" if r is False else "NonBool:" + repr(r)
+def rp(x):
+    try:
+        return repr(x)
+    except Exception as e:
+        return "Other:" + type(e).__name__
+runs = []
+for h in json.load(open(sys.argv[1])):
+    init = h["init"]
+    p = {1: t.Position(line=init[0][0], character=init[0][1]), 2: t.Position(line=init[1][0], character=init[1][1])}
+    # built once: they hold references to the two objects
+    r12, r21 = t.Range(start=p[1], end=p[2]), t.Range(start=p[2], end=p[1])
+    snap = t.Range(start=t.Position(line=init[0][0], character=init[0][1]), end=t.Position(line=init[1][0], character=init[1][1]))
+    l12, lsnap, lother = t.Location(uri="file:///a", range=r12), t.Location(uri="file:///a", range=snap), t.Location(uri="file:///b", range=r12)
+    evs = []
+    for act in h["hist"]:
+        ev = dict(act)
+        if act["a"] == "set":
+            try:
+                setattr(p[act["o"]], act["f"], act["v"])
+                ev["ok"] = True
+            except Exception as e:
+                ev["ok"] = False
+        elif act["a"] == "cmp":
+            a, b = p[act["o"]], p[act["p"]]
+            for op in OPS: ev[op] = run(op, a, b)
+            ev["ra"], ev["rb"] = rp(a), rp(b)
+        else:
+            x, y = {"swap": (r12, r21), "snap": (r12, snap), "loc": (l12, lsnap)}[act["w"]]
+            ev["eq"], ev["ne"] = run("eq", x, y), run("ne", x, y)
+            ev["other"] = run("eq", l12, lother) if act["w"] == "loc" else "F"
+            ev["repr"] = rp(x)
+        evs.append(ev)
+    runs.append({"init": init, "events": evs})
+json.dump(runs, open(sys.argv[2], "w"))
+'''
+
+
+def machine(rep, tier, work):
+    """Histories of assignments and comparisons on two live Position objects (PositionMachine.tla):
+    TLC enumerates them, the harness replays each on real objects, TLC replays the trace on its own state."""
+    maxlen = 3 if tier == "quick" else 4
+    rc, out = common.run_tlc("PositionMachine", "CONSTANTS MaxLen = %d NRuns = 0 NEvents = 0\nINIT GInit\nNEXT GNext\nINVARIANT StateIsFoldOfHistory\n"
+                             "INVARIANT Trichotomy\nINVARIANT EmitHistory\nCHECK_DEADLOCK FALSE\n" % maxlen, workers=4, heap="4g")
+    if "No error has been found" not in out:
+        raise common.MachineryError("PositionMachine.tla generation failed:\n" + out[-2000:])
+    gen, distinct = common.tlc_stats(out)
+    hists = list(common.tagged_lines(out, "@M"))
+    hp, tp = os.path.join(work, "hists.json"), os.path.join(work, "mtrace.json")
+    json.dump(hists, open(hp, "w"))
+    env = dict(os.environ, PYTHONPATH=os.path.join(common.REPO, "packages", "python"))
+    p = subprocess.run([common.PY, "-c", MACHINE, hp, tp], env=env, stdout=subprocess.PIPE, stderr=subprocess.PIPE)
+    if p.returncode != 0:
+        raise common.MachineryError("C20 machine driver failed:\n" + p.stderr.decode()[-2000:])
+    runs = json.load(open(tp))
+    nev, nfail = 0, 0
+    CH = 4000
+    for k in range(0, len(runs), CH):
+        chunk = runs[k:k + CH]
+        cp = os.path.join(work, "mtrace-%d.json" % k)
+        json.dump(chunk, open(cp, "w"))
+        n = sum(len(r["events"]) for r in chunk)
+        nev += n
+        rc, out2 = common.run_tlc("PositionMachine", "CONSTANTS MaxLen = 0 NRuns = %d NEvents = %d\nINIT TInit\nNEXT TStep\nPOSTCONDITION AllConsumed\nCHECK_DEADLOCK FALSE\n" % (len(chunk), n),
+                                  env={"POSM_TRACE": cp}, heap="4g")
+        if '"@DONE' not in out2:
+            raise common.MachineryError("PositionMachine.tla did not consume the trace:\n" + out2[-2000:])
+        for f in common.tagged_lines(out2, "@F"):
+            run = chunk[f["run"] - 1]
+            ev = run["events"][f["l"] - 1]
+            for clause in f["c"]:
+                # signature: the clause and the SHAPE of the history up to the failing event (action kinds only)
+                shape = "/".join(e["a"] for e in run["events"][:f["l"]])
+                rep.violation({"clause": clause, "kind": "machine:" + shape}, {"init": run["init"], "hist": [{k2: v for k2, v in e.items() if k2 in ("a", "o", "p", "f", "v", "w")} for e in run["events"][:f["l"]]], "observed": ev, "spec_state": f["state"]})
+    return {"histories": len(hists), "history_length": maxlen, "events": nev, "states": distinct, "transitions": gen}
+
+
 def check(tier):
     rep = common.Reporter("C20", tier, "model_checking")
     rc, out = common.run_tlc("PositionOrder", GEN_CFG)
@@ -92,6 +178,7 @@ def check(tier):
             for clause in f["c"]:
                 key = {"clause": clause, "kind": ev["k"] + (":" + ev["fk"] if ev["k"] == "foreign" else "")}
                 rep.violation(key, ev)
+        mach = machine(rep, tier, work)
     finally:
         import shutil
         shutil.rmtree(work, ignore_errors=True)
@@ -114,8 +201,8 @@ def check(tier):
     for c in cases:
         bykind[c["k"]] = bykind.get(c["k"], 0) + 1
     rep.coverage.update({"states": distinct, "transitions": gen, "traces_validated_against_impl": len(trace),
-                         "cases_by_kind": bykind, "tlaps_order_lemmas": tl, "random_pairs": nrand, "exhaustive": True,
-                         "rule": "all pairs over the grid {0,1,2,2^31-2,2^31-1}^2 (625) x 6 operators + repr; 256 range pairs; location pairs; foreign operands; plus seeded random position pairs; order lemmas (trichotomy, transitivity) of the oracle checked by TLC on the grid",
+                         "cases_by_kind": bykind, "machine": mach, "tlaps_order_lemmas": tl, "random_pairs": nrand, "exhaustive": True,
+                         "rule": "all pairs over the grid {0,1,2,2^31-2,2^31-1}^2 (625) x 6 operators + repr; 256 range pairs; location pairs; foreign operands; plus seeded random position pairs; order lemmas (trichotomy, transitivity) of the oracle checked by TLC on the grid; PositionMachine.tla: every history of assignments / comparisons / Range-Location comparisons of the stated length on two live objects from 2 initial states, replayed on real objects and validated step by step",
                          "samples": trace[:2] + trace[-2:]})
     rep.assumptions = ["the harness only calls operators / repr on the public classes and records the outcome", "TLC evaluates Lex and ToString faithfully"]
     return rep
